@@ -104,10 +104,30 @@ class Translator:
         return isinstance(node, ast.Name) and (
             node.id == var or env.get(node.id) == ('var',))
 
-    def string_view(self, node, var, env):
-        """Recognise <var> or <var>[k:] ; returns shift k or None."""
+    def _base(self, node, var, env):
+        """0 for the validated string itself, k for a local bound to
+        <var>[k:] (env value ('view', k)), else None."""
         if self.is_var(node, var, env):
             return 0
+        if isinstance(node, ast.Name) and isinstance(
+                env.get(node.id), tuple) and env[node.id][:1] == ('view',):
+            return env[node.id][1]
+        return None
+
+    def string_view(self, node, var, env):
+        """Recognise <var> or <var>[k:] ; returns shift k or None."""
+        b0 = self._base(node, var, env)
+        if b0 is not None:
+            return b0
+        if isinstance(node, ast.Subscript) and \
+                self._base(node.value, var, env) is not None and \
+                self._base(node.value, var, env) > 0 and \
+                isinstance(node.slice, ast.Slice) and \
+                node.slice.upper is None and node.slice.step is None and \
+                isinstance(node.slice.lower, ast.Constant) and \
+                isinstance(node.slice.lower.value, int) and \
+                node.slice.lower.value >= 0:
+            return self._base(node.value, var, env) + node.slice.lower.value
         if isinstance(node, ast.Subscript) and \
                 self.is_var(node.value, var, env) and \
                 isinstance(node.slice, ast.Slice) and \
@@ -147,10 +167,29 @@ class Translator:
             if isinstance(sl, ast.UnaryOp) and isinstance(sl.op, ast.USub) \
                     and isinstance(sl.operand, ast.Constant):
                 return -sl.operand.value
+        if isinstance(node, ast.Subscript) and (
+                self._base(node.value, var, env) or 0) > 0:
+            k = self._base(node.value, var, env)
+            sl = node.slice
+            if isinstance(sl, ast.Constant) and isinstance(sl.value, int) \
+                    and sl.value >= 0:
+                return k + sl.value       # view[i] is var[k + i]
+            if isinstance(sl, ast.UnaryOp) and isinstance(sl.op, ast.USub) \
+                    and isinstance(sl.operand, ast.Constant) and \
+                    sl.operand.value == 1:
+                return ('last', k)        # view[-1]: needs len(var) > k
         return None
+
+    def char_lang(self, i, pred):
+        if isinstance(i, tuple):
+            return dfa_char_at(self.ab, -1, pred) & \
+                dfa_len(self.ab, '>', i[1])
+        return dfa_char_at(self.ab, i, pred)
 
     def raises_at(self, idx):
         """strings for which var[idx] raises IndexError"""
+        if isinstance(idx, tuple):
+            return dfa_len(self.ab, '<=', idx[1])
         if idx >= 0:
             return dfa_len(self.ab, '<=', idx)
         return dfa_len(self.ab, '<', -idx)
@@ -356,7 +395,7 @@ class Translator:
                 i = self.char_index(l, var, env)
                 if i is not None:
                     chars = r.value
-                    d = dfa_char_at(ab, i, lambda ch: ch in chars)
+                    d = self.char_lang(i, lambda ch: ch in chars)
                     rs = self.raises_at(i)
                     if isinstance(op, ast.NotIn):
                         d = (d | rs).complement()
@@ -371,6 +410,7 @@ class Translator:
                 if k is not None and opn:
                     if r.value > 64:
                         self.len_atoms.append((opn, r.value + k))
+                        self.len_arms.append(getattr(self, '_arm', ()))
                         return Lang(self.NONE, self.NONE)
                     return Lang(self.shift(dfa_len(ab, opn, r.value), k)
                                 if k else dfa_len(ab, opn, r.value),
@@ -382,7 +422,7 @@ class Translator:
                     if i is not None and isinstance(b, ast.Constant) and \
                             isinstance(b.value, str):
                         c = b.value
-                        d = dfa_char_at(ab, i, lambda ch: ch == c) \
+                        d = self.char_lang(i, lambda ch: ch == c) \
                             if len(c) == 1 else self.NONE
                         rs = self.raises_at(i)
                         if isinstance(op, ast.NotEq):
@@ -458,7 +498,7 @@ class Translator:
                         'isdigit', 'isalpha', 'isalnum', 'isupper',
                         'islower', 'isspace'):
                     meth = f.attr
-                    d = dfa_char_at(ab, i,
+                    d = self.char_lang(i,
                                     lambda ch: getattr(ch, meth)())
                     return Lang(d, self.raises_at(i))
                 # PATTERN.search(var)
@@ -493,11 +533,17 @@ class Translator:
             raise AnalysisError('validator delegation too deep')
         var = fi.params()[0]
         self.len_atoms = []
+        self.len_arms = []      # the arm of a conditional view each atom
+        #                         of len_atoms was met on (parallel list)
+        self._arm = ()
+        self._arms_seen = {()}
         st = {'alive': self.ALL, 'wrong': [], 'accepted_early': self.NONE}
         self.block(fi.node.body, fi, var, self._option_defaults(fi), st,
                    in_try=False, depth=_depth)
         res = {'accept': (st['alive'] | st['accepted_early']).minimize(),
-               'wrong': st['wrong'], 'len_atoms': list(self.len_atoms)}
+               'wrong': st['wrong'], 'len_atoms': list(self.len_atoms),
+               'len_arms': list(self.len_arms),
+               'arms': set(self._arms_seen)}
         self.cache[fi.qualname] = res
         return res
 
@@ -565,13 +611,28 @@ class Translator:
             return False
         return store(s)
 
-    def exc_name(self, node):
+    def exc_name(self, node, mod=None):
         if isinstance(node, ast.Raise) and node.exc is not None:
             e = node.exc
             if isinstance(e, ast.Call):
                 e = e.func
             d = dotted(e)
-            return d.split('.')[-1] if d else '?'
+            nm = d.split('.')[-1] if d else '?'
+            # `raise _invalid(kind, n, e)`: a module-level helper every
+            # return of which is `<ExceptionClass>(...)` builds that class
+            for m in ([mod] if mod is not None else
+                      self.prog.modules.values()):
+                f = m.funcs.get(nm) if isinstance(e, ast.Name) else None
+                if f is None:
+                    continue
+                rets = [n.value for n in ast.walk(f.node)
+                        if isinstance(n, ast.Return)]
+                names = {(dotted(r.func) or '?').split('.')[-1]
+                         if isinstance(r, ast.Call) else '?' for r in rets}
+                if rets and len(names) == 1 and '?' not in names and not any(
+                        isinstance(n, ast.Raise) for n in ast.walk(f.node)):
+                    return names.pop()
+            return nm
         return None
 
     def block(self, stmts, fi, var, env, st, in_try, depth):
@@ -590,10 +651,42 @@ class Translator:
                     s.value, env, mod)
                 continue
             if isinstance(s, ast.Assign) and len(s.targets) == 1 and \
+                    isinstance(s.targets[0], ast.Name) and \
+                    isinstance(s.value, ast.IfExp) and \
+                    self.string_view(s.value.body, var, env) is not None and \
+                    self.string_view(s.value.orelse, var, env) is not None:
+                # name = n[1:] if <test> else n: the rest of the block is
+                # decided once for each arm, on the strings that take it
+                c = self.cond(s.value.test, var, env, mod)
+                rest = stmts[stmts.index(s) + 1:]
+                outs = []
+                base_arm = self._arm
+                self._arms_seen.discard(base_arm)
+                for lang, arm in ((c.true, s.value.body),
+                                  (c.false(), s.value.orelse)):
+                    self._arm = base_arm + ((s.lineno, arm is s.value.body),)
+                    self._arms_seen.add(self._arm)
+                    k_ = self.string_view(arm, var, env)
+                    env2 = dict(env)
+                    env2[s.targets[0].id] = ('var',) if k_ == 0 else (
+                        'view', k_)
+                    sub = {'alive': st['alive'] & lang, 'wrong': st['wrong'],
+                           'accepted_early': self.NONE}
+                    self.block(rest, fi, var, env2, sub, in_try, depth)
+                    outs.append(sub)
+                self._arm = base_arm
+                st['alive'] = outs[0]['alive'] | outs[1]['alive']
+                st['accepted_early'] = st['accepted_early'] | \
+                    outs[0]['accepted_early'] | outs[1]['accepted_early']
+                return
+            if isinstance(s, ast.Assign) and len(s.targets) == 1 and \
                     isinstance(s.targets[0], ast.Name):
                 env = dict(env)
                 if self.is_var(s.value, var, env):
                     env[s.targets[0].id] = ('var',)
+                elif (self.string_view(s.value, var, env) or 0) > 0:
+                    env[s.targets[0].id] = ('view', self.string_view(
+                        s.value, var, env))
                 else:
                     env[s.targets[0].id] = s.value
                 continue
@@ -664,8 +757,13 @@ class Translator:
                         len(s.value.args) == 1 and \
                         self.is_var(s.value.args[0], var, env):
                     saved = self.len_atoms
+                    saved_arms, saved_arm, saved_seen = \
+                        self.len_arms, self._arm, self._arms_seen
                     sub = self.validator(callee[1], depth + 1)
                     self.len_atoms = saved + sub['len_atoms']
+                    self.len_arms = saved_arms + [saved_arm] * len(
+                        sub['len_atoms'])
+                    self._arm, self._arms_seen = saved_arm, saved_seen
                     st['alive'] = st['alive'] & sub['accept']
                     if in_try != 'all':
                         # (inside a catch-all that converts, whatever the
@@ -852,19 +950,28 @@ def run(ctx):
         else:
             # accepted lengths = complement of the union of rejected ranges
             rej = res['len_atoms']
+            arms = res.get('len_arms') or [()] * len(rej)
             max_ok = None
             if rej:
-                bounds = []
-                for op, k in rej:
-                    if op == '>':
-                        bounds.append(k)
-                    elif op == '>=':
-                        bounds.append(k - 1)
-                    else:
-                        bounds = None
-                        break
-                if bounds:
-                    max_ok = min(bounds)
+                # per arm of a conditional view (`name = n[1:] if unique else
+                # n`) the rejected ranges unite; the validator as a whole
+                # accepts what SOME arm accepts
+                per_leaf = []
+                for leaf in (res.get('arms') or {()}):
+                    bounds = []
+                    for (op, k), a_ in zip(rej, arms):
+                        if leaf[:len(a_)] != a_:
+                            continue
+                        if op == '>':
+                            bounds.append(k)
+                        elif op == '>=':
+                            bounds.append(k - 1)
+                        else:
+                            bounds = None
+                            break
+                    per_leaf.append(min(bounds) if bounds else None)
+                if per_leaf and None not in per_leaf:
+                    max_ok = max(per_leaf)
             ctx.ob('C18.D1', qn, 'max-length', max_ok == g['maxlen'],
                    'names are limited to %d bytes; %s accepts lengths up to '
                    '%s' % (g['maxlen'], fi.name, max_ok if max_ok is not None
